@@ -1529,6 +1529,73 @@ variant("serve-conn-copied-per-iteration",
 			defer s.wg.Done()
 
 			err := s.handleConn(newConn(nc, s))"""))
+variant("auth-assert-early-return",
+  ("conn.go", """	if authSession, ok := c.Session().(AuthSession); ok {
+		return authSession.Auth(mech)
+	}
+	return nil, ErrAuthUnknownMechanism""", """	authSession, ok := c.Session().(AuthSession)
+	if !ok {
+		return nil, ErrAuthUnknownMechanism
+	}
+	return authSession.Auth(mech)"""))
+variant("client-end-transaction-helper",
+  ("client.go", """	// MAIL starts a new transaction, the recipients accepted for the
+	// previous one must not be expected again.
+	c.rcpts = nil
+""", """	// MAIL starts a new transaction, the recipients accepted for the
+	// previous one must not be expected again.
+	c.forgetRecipients()
+"""),
+  ("client.go", """	c.helloError = nil
+
+	c.rcpts = nil
+	return nil""", """	c.helloError = nil
+
+	c.forgetRecipients()
+	return nil"""),
+  ("client.go", "func (c *Client) greet() error {", "func (c *Client) forgetRecipients() {\n	c.rcpts = nil\n}\n\nfunc (c *Client) greet() error {"))
+variant("close-drop-session-helper",
+  ("conn.go", """	if c.session != nil {
+		c.session.Logout()
+		c.session = nil
+	}
+
+	c.closed = true
+	return c.conn.Close()""", """	c.dropSessionLocked()
+
+	c.closed = true
+	return c.conn.Close()"""),
+  ("conn.go", "// isClosed reports whether", "// dropSessionLocked logs the session out; the caller holds c.locker.\nfunc (c *Conn) dropSessionLocked() {\n	if c.session != nil {\n		c.session.Logout()\n		c.session = nil\n	}\n}\n\n// isClosed reports whether"))
+variant("tls-state-named-results",
+  ("conn.go", """	tc, ok := c.conn.(*tls.Conn)
+	if !ok {
+		return
+	}
+	return tc.ConnectionState(), true
+}
+
+func (c *Conn) Hostname""", """	if tc, isTLS := c.conn.(*tls.Conn); isTLS {
+		return tc.ConnectionState(), true
+	}
+	return tls.ConnectionState{}, false
+}
+
+func (c *Conn) Hostname"""))
+variant("data-close-then-return-on-drain-failure",
+  ("conn.go", """	c.writeResponse(code, enhancedCode, msg)
+	if drainErr != nil {
+		// The end of the message was not reached (timeout, connection
+		// error): what follows in the stream is not a command.
+		c.Close()
+	}
+}""", """	c.writeResponse(code, enhancedCode, msg)
+	if drainErr == nil {
+		return
+	}
+	// The end of the message was not reached (timeout, connection
+	// error): what follows in the stream is not a command.
+	c.Close()
+}"""))
 if sys.argv[1:] == ['--export']:
     out = [{"id": "benign-" + n, "edits": [{"file": f, "old": o, "new": w} for f, o, w in V[n]]} for n in V]
     json.dump(out, open('/verif/liveness/benign.json', 'w'), indent=1)
